@@ -356,6 +356,13 @@ def _stream_classification(repo: Repo, rep: Report) -> None:
     pr = repo.func("core.loader.responses.parser:parse_response")
     tables = {n.targets[0].id for n in own_nodes(pr.node) if isinstance(n, ast.Assign) and isinstance(n.targets[0], ast.Name) and isinstance(n.value, ast.Dict)
               and any(const_str(k) == "text/event-stream" for k in n.value.keys if k is not None)}
+    # the table may be a module-level constant
+    for st in pr.module.tree.body:
+        if isinstance(st, (ast.Assign, ast.AnnAssign)) and isinstance(getattr(st, "value", None), ast.Dict) and any(
+                const_str(k) == "text/event-stream" for k in st.value.keys if k is not None):
+            tg = st.targets[0] if isinstance(st, ast.Assign) else st.target
+            if isinstance(tg, ast.Name):
+                tables.add(tg.id)
     if not tables:
         raise AnalysisError("anchor vanished: the table of streaming media types in parse_response")
     cfg = CFG(pr.node)
